@@ -125,7 +125,8 @@ def cases(tier):
     if tier == "quick":
         out += ns.enumerate_cases(1, keep=keep)
         # source heads that move during the run: head pattern x pattern start / step
-        named = [{"headpat", "pstart1h"}, {"headpat", "pstart90m"}, {"headpat", "hyd30"}, {"headpat", "reverse"}]
+        named = [{"headpat", "pstart1h"}, {"headpat", "pstart90m"}, {"headpat", "hyd30"}, {"headpat", "reverse"},
+                 {"reverse", "closed"}, {"reverse", "ctl_toggle"}, {"reverse", "cv"}]      # orientation x closure (parallel links!)
         names = set().union(*named)
         out += [c for c in ns.enumerate_cases(2, keep=lambda d: d["k"] in names, pairs_keep=lambda a, b: {a["k"], b["k"]} in named)
                 if len(c["id"]["devs"]) == 2]
